@@ -199,6 +199,12 @@ func ruleLITTYPE(c *Ctx, r *Report) {
 			switch {
 			case kindBad != "":
 				r.bad(rule, "word|kind|"+strings.Join(seq, ">"), pos, fmt.Sprintf("a bare word (token types %v) becomes %s: only a /…/ token is a regular expression and only an unescaped * or ? makes a pattern — text that merely looks like one after its escapes were removed must stay a plain value", setKeys(toks), kindBad))
+			case !okOrder && numericReadingIgnored(p.Atoms, argKey) == "" && (strings.Contains(argKey, "strconv.") || contains(seq, "int") && contains(seq, "float")) &&
+				!(strings.HasSuffix(argKey, "#0") && strings.Contains(argKey, "ParseFloat") && !intReadingFailed(p.Atoms)):
+				// the tests stand in another order, but what the path returns is what the readings found: the integer
+				// reading wins whenever it succeeded, a float is returned only after the integer reading failed, and
+				// text only after both failed — the order in which the (pure) readings are computed cannot be observed
+				r.ok(rule, key, pos, "readings computed in another order; the result follows int > float > text")
 			case !okOrder:
 				r.bad(rule, key, pos, fmt.Sprintf("bare-word typing tests run in the order %v; int must be tried before float before wildcard (e.g. `5` must be an int, `1e3` a float, `a*` a pattern)", seq))
 			case kind == "wild" && hasTrueCall(p.Atoms, "ContainsAny") && !(len(ops) == 1 && ops[0] == "expr.Wild"):
@@ -1742,6 +1748,16 @@ func ruleTOKIMMUTABLE(c *Ctx, r *Report) {
 
 // numericReadingIgnored: the path established that the word reads as an int (or, failing that, as a
 // finite float) but the leaf payload is not that reading's value. Returns a description, "" if fine.
+// intReadingFailed: the path has found the integer reading's error non-nil.
+func intReadingFailed(atoms []Atom) bool {
+	for _, a := range atoms {
+		if a.Kind == "nil" && !a.Pos && strings.HasSuffix(a.Subj, "#1") && (strings.Contains(a.Subj, "strconv.Atoi(") || strings.Contains(a.Subj, "strconv.ParseInt(")) {
+			return true
+		}
+	}
+	return false
+}
+
 func numericReadingIgnored(atoms []Atom, argKey string) string {
 	intOK, intFail, floatOK, nonFinite := false, false, false, false
 	for _, a := range atoms {
